@@ -51,3 +51,8 @@ claim("C01", "content-type dispatch tables of client (parsed variants) and serve
       "Structural: for every content type of the property (and the default arm) the server arm selected by that string is the inverse codec of the client's, for requests and responses; every RPC method sends Content-Type from the per-call variable before executing; the body/query verb partitions of server, client and generation-time validation coincide; path values are PathEscape'd and query values Encode'd; every URL-bindable kind has a server conversion arm whose parser, bit size and constructor are those of the kind. Equality of concrete values (float text, zero-value elision, UTF-8) and route equality (C03) are not decided.",
       "protojson/proto codecs are mutually inverse; fmt.Sprint/strconv round-trip at equal bit size.",
       "DESIGN.md 5/C01")
+
+claim("C13", "emission-grammar enumeration + go/parser on every variant, import/use agreement, go/types on synthesized shape worlds (field of each shape's Go type), lexical TypeScript checks, provenance (taint) rules on holes",
+      "Structural: every Go variant of every emitted unit parses and the constant runtime type-checks; imports agree with uses in every variant (client: pairs of decisions, helpers followed); for each codec emitter and each field shape its collector and validator let through, the emitted methods type-check against a stand-in struct with the shape's Go type; two MarshalJSON-emitting features on one message need a conflict check; schema-author text in literals is quoted; field selectors use GoName; every TypeScript variant is lexically well-formed. Full type-checking of holed units for arbitrary descriptors, go vet beyond the typed runtime, and TypeScript typing are not decided.",
+      "go/parser and go/types are the Go front end; protoc-gen-go's field type mapping; TypeScript is read lexically only.",
+      "DESIGN.md 5/C13")
